@@ -109,7 +109,7 @@ func (r *Run) u32() uint32 {
 	case 2:
 		return uint32(r.Rng.Intn(70000))
 	case 3:
-		return uint32(r.Pick(1, 0x7fffffff, 0x80000000, 0xfffffffe, 0x10000, 0xffff))
+		return []uint32{1, 0x7fffffff, 0x80000000, 0xfffffffe, 0x10000, 0xffff}[r.Rng.Intn(6)]
 	}
 	return r.Rng.Uint32()
 }
